@@ -163,7 +163,8 @@ Script ==
       post    |-> root,
       codes   |-> last.codes,
       block   |-> last.block,
-      mods    |-> Mods ]
+      mods    |-> Mods,
+      addrmode |-> AddrMode ]
 
 Emit == last.on => PrintT(ToJson(Script))
 =============================================================================
